@@ -477,6 +477,10 @@ class RejectsMixin:
             return t >> pdt.select(c_any, t[step["any"]])
         if rule == "join_suffix_collision":
             on = o_name()
+            if step["nest"] in ("case_branch", "case_cond", "ctx_kwarg"):
+                # the colliding right column got its current name by a rename
+                o = o >> pdt.rename({on: on + "_rn"})
+                on = on + "_rn"
             left = t >> pdt.mutate(**{on + "_zz": t[step["any"]]})
             return left >> pdt.join(o, [], "inner", suffix="_zz")
         if rule in ("join_grouped", "join_same_origin", "join_cross_backend"):
